@@ -29,7 +29,7 @@ type vmItem struct {
 
 func (s vstep) String() string {
 	switch s.Op {
-	case "enable", "suspend":
+	case "enable", "suspend", "statusless":
 		return s.Op
 	case "delete-version":
 		return fmt.Sprintf("delete-version(%s,#%d-newest)", s.Key, s.Which)
@@ -108,6 +108,33 @@ func vExecStep(s *drv.Server, bucket string, m *model.VersionModel, st vstep, st
 			return fail("set-versioning-failed", resp.String())
 		}
 		m.SetVersioning(st.Op == "enable")
+	case "statusless":
+		// a versioning configuration without a Status element (only MfaDelete, or empty). Whatever
+		// the server makes of it - refuse it, ignore it, suspend - it must not endanger versions:
+		// the state it reports afterwards is taken over, anything but Enabled counts as Suspended.
+		body := []string{`<VersioningConfiguration xmlns="http://s3.amazonaws.com/doc/2006-03-01/"><MfaDelete>Disabled</MfaDelete></VersioningConfiguration>`,
+			`<VersioningConfiguration xmlns="http://s3.amazonaws.com/doc/2006-03-01/"/>`}[stepNo%2]
+		resp := s.Do(&drv.Req{Method: "PUT", Path: "/" + bucket, Query: "versioning", Body: []byte(body)})
+		if resp.Panic != nil {
+			return fail("panic", fmt.Sprintf("set-versioning panicked: %v", resp.Panic))
+		}
+		if r != nil {
+			r.Count("statusless_versioning_configurations", 1)
+		}
+		if resp.Status == 200 {
+			g := s.Do(&drv.Req{Method: "GET", Path: "/" + bucket, Query: "versioning"})
+			var vc struct {
+				Status string `xml:"Status"`
+			}
+			if g.Status != 200 || drv.ParseXML(g.Body, &vc) != nil {
+				return fail("get-versioning-failed", g.String())
+			}
+			if vc.Status == "Enabled" {
+				m.SetVersioning(true)
+			} else if m.Ever {
+				m.SetVersioning(false)
+			}
+		}
 	case "put":
 		body := []byte(fmt.Sprintf("h%d-s%d-%s-", hist, stepNo, st.Key))
 		body = append(body, bytes.Repeat([]byte{byte('a' + stepNo%26)}, stepNo%7)...)
@@ -514,8 +541,10 @@ func genVersionHistory(rng interface{ Intn(int) int }, keys []string, n int) []v
 				items = append(items, it)
 			}
 			steps = append(steps, vstep{Op: "multi-delete", Items: items})
-		case x < 91:
+		case x < 90:
 			steps = append(steps, vstep{Op: "enable"})
+		case x < 93:
+			steps = append(steps, vstep{Op: "statusless"})
 		default:
 			steps = append(steps, vstep{Op: "suspend"})
 		}
@@ -526,7 +555,7 @@ func genVersionHistory(rng interface{ Intn(int) int }, keys []string, n int) []v
 func runC05(c *Ctx) {
 	r := c.R
 	exhLen := r.Pick(5, 8)
-	r.SetRule(fmt.Sprintf("bounded-exhaustive: every history of length %d over {put, delete, delete-version(newest), delete-version(oldest), enable, suspend} on one key from a never-versioned bucket; random: histories of 20-60 steps over 3 keys incl. multi-delete with and without version ids and unknown ids and copies of a key onto itself with other metadata; after every step every version id ever handed out is read by GET and HEAD ?versionId and every key is read unqualified (GET+HEAD) and compared with VersionModel; memory backend; distinct = distinct step sequences", exhLen))
+	r.SetRule(fmt.Sprintf("bounded-exhaustive: every history of length %d over {put, delete, delete-version(newest), delete-version(oldest), enable, suspend} on one key from a never-versioned bucket; random: histories of 20-60 steps over 3 keys incl. versioning configurations without a Status element, multi-delete with and without version ids and unknown ids and copies of a key onto itself with other metadata; after every step every version id ever handed out is read by GET and HEAD ?versionId and every key is read unqualified (GET+HEAD) and compared with VersionModel; memory backend; distinct = distinct step sequences", exhLen))
 	r.Exhaustive(true)
 	alpha := []vstep{{Op: "put", Key: "vk"}, {Op: "delete", Key: "vk"}, {Op: "delete-version", Key: "vk", Which: 0}, {Op: "delete-version", Key: "vk", Which: 9},
 		{Op: "enable"}, {Op: "suspend"}}
